@@ -226,6 +226,8 @@ def make_phase_diag(pname, idx, d, ctx):
       raise DiagBoom('diagnoser failed')
     if d == 'none':
       return None
+    if d == 'iA':
+      return dl.Diagnosis(R.A, 'internal', is_internal=True)
     return dl.Diagnosis(getattr(R, d), 'descr', is_failure=d.startswith('F'))
 
   run.__name__ = 'diag_%s_%d' % (pname, idx)
@@ -321,6 +323,8 @@ def run_spec(spec_nodes, settings=None, extra_callbacks=(), test_start=None, kee
     conf_loaded['stop_on_first_failure'] = True
   if settings.get('allow_unset'):
     conf_loaded['allow_unset_measurements'] = True
+  if settings.get('capture_source'):
+    conf_loaded['capture_source'] = True      # (Test() then rebuilds the whole node tree through load_code_info())
   tdiags = [make_test_diag(i, d, ctx) for i, d in enumerate(settings.get('test_diag') or [])]
   conf = L['conf']
   if conf_loaded:
